@@ -1,15 +1,101 @@
-(* C01 — generated parser module is observationally identical to the interpreter.
-   INTERIM: both execution modes are tied, on every run, to ONE reference semantics
-   (`parse` of Spec.v) by differential execution over the template-complete space G1, and
-   directly to each other; the theorems here state that the observation compared (tree, or
-   furthest-failure position) is a function of (grammar, rule, input, start position) alone
-   and does not depend on fuel, so "both equal the reference" implies "equal to each other".
-   A statement-level model of the code templates (Gen.v) with a refinement proof is the
-   planned strengthening. *)
+(* C01 — the generated parser module is observationally identical to the interpreter.
+   Models: Interp.v (the interpreter: every parse() method and ParserState operation) and Gen.v
+   (the generated code: the statements every generate() template emits, generate_parse_trivia,
+   the in-place emission of built-in rules). Both are tied to the code on every run: mode I =
+   Interp.iparse and mode IG = Gen.gparse exactly (tree, furthest-failure position, expected and
+   unexpected sets) on every generated case.
+   Statements; proofs in GenProof.v (lockstep simulation Gen ~ Interp, simulation inl ~ [],
+   InterpProof.iparse_refines), no axioms.
+   Side conditions, both enforced by the harness's exporter on every grammar it runs:
+   - a silent rule is not `$` or `!` (one modifier per rule in grammar text; necessity:
+     InterpProof.silent_compound_differs);
+   - the rules emitted in place (`inl`: built-in rules other than EOI) are silent, carry no
+     atomicity modifier and are not WHITESPACE/COMMENT. *)
 From Coq Require Import List NArith ZArith.
 Import ListNotations.
-From PP Require Import Base Syntax Spec SpecMono SpecLaws SpecWf.
+From PP Require Import Base Syntax Spec SpecMono SpecLaws SpecWf Interp InterpProof Gen GenProof SpecCert.
 
+Definition one_modifier (g : grammar) : Prop :=
+  forall n r, lookup g n = Some r -> r_silent r = true -> r_kind r = KNormal \/ r_kind r = KAtomic.
+
+Lemma one_modifier_silent_ok g : one_modifier g ->
+  forall n r, lookup g n = Some r -> r_silent r = true -> silent_ok g r.
+Proof.
+  intros NS n r L S. destruct (NS n r L S) as [K|K].
+  - right; left; exact K.
+  - left; unfold hides; rewrite K; reflexivity.
+Qed.
+
+(* THE PROPERTY: whenever the interpreter and the generated code both finish on the same grammar,
+   start rule, input and start position, they return the same tree (names, spans, nesting, tags),
+   at the same final position and with the same stack, or both fail with the same furthest-failure
+   position, or both report the undefined rule; neither ever reaches an inconsistent state
+   (IndexError on an empty checkpoint / rule stack), and no other combination is possible. *)
+Theorem C01_generated_equals_interpreter : forall g inl, one_modifier g -> inl_ok g inl ->
+  forall f1 f2 rule input k, inlined inl rule = false ->
+    match iparse g f1 rule input k, gparse g inl f2 rule input k with
+    | IOk true s1 p1, GOk true s2 p2 =>
+        p1 = p2 /\ i_pos s1 = i_pos s2 /\ i_user s1 = i_user s2 /\ t_pos (i_trk s1) = t_pos (i_trk s2)
+    | IOk false s1 _, GOk false s2 _ => t_pos (i_trk s1) = t_pos (i_trk s2)
+    | IUndef, GUndef => True
+    | IFuel, _ | _, GFuel => True
+    | ICrash, _ | _, GCrash => False
+    | _, _ => False
+    end.
+Proof.
+  intros g inl NS HI. apply generated_equals_interpreter; [apply one_modifier_silent_ok; exact NS|exact HI].
+Qed.
+
+(* ... and they finish together: if the reference semantics has a result, so have both machines
+   (with enough of Python's stack, which the model does not bound) *)
+Theorem C01_both_terminate : forall g inl, one_modifier g -> inl_ok g inl ->
+  forall f rule input k r, inlined inl rule = false ->
+  parse g f rule input k = r -> r <> Fuel ->
+  (exists f', iparse g f' rule input k <> IFuel) /\ (exists f', gparse g inl f' rule input k <> GFuel).
+Proof.
+  intros g inl NS HI f rule input k r HR P D. split.
+  - eapply iparse_terminates; [apply one_modifier_silent_ok; exact NS|exact P|exact D].
+  - eapply gparse_terminates; [apply one_modifier_silent_ok; exact NS|exact HI|exact HR|exact P|exact D].
+Qed.
+
+(* for every grammar the well-formedness certificate accepts, on every input *)
+Theorem C01_wellformed_grammars_total : forall g inl, one_modifier g -> inl_ok g inl -> wf_auto g = true ->
+  forall rule input k, inlined inl rule = false ->
+  (exists f', iparse g f' rule input k <> IFuel) /\ (exists f', gparse g inl f' rule input k <> GFuel).
+Proof.
+  intros g inl NS HI W rule input k HR.
+  destruct (wf_auto_terminates g W rule input k) as [f D].
+  eapply C01_both_terminate; try eassumption. reflexivity.
+Qed.
+
+(* the generated code itself refines the reference semantics (hence every theorem of C03-C08, C13,
+   C16 about `parse` holds of what the generated code returns), and releases every checkpoint *)
+Theorem C01_generated_refines_semantics : forall g, one_modifier g ->
+  forall f rule input k,
+    match gparse g [] f rule input k with
+    | GOk true s' ps  => (exists f', parse g f' rule input k = Ok (abs_st s') ps)
+                         /\ i_saved s' = [] /\ i_dcps s' = [] /\ i_rules s' = [] /\ i_depth s' = 0
+    | GOk false s' _  => (exists f', parse g f' rule input k = Fail (i_trk s'))
+                         /\ i_saved s' = [] /\ i_dcps s' = [] /\ i_rules s' = []
+    | GUndef          => exists f', parse g f' rule input k = Err
+    | GCrash          => False
+    | GFuel           => True
+    end.
+Proof. intros g NS. apply gparse_refines. apply one_modifier_silent_ok. exact NS. Qed.
+
+(* emitting built-in rules in place changes only the names in the failure record *)
+Theorem C01_inlining_changes_names_only : forall g inl, inl_ok g inl ->
+  forall f rule input k, inlined inl rule = false ->
+    match gparse g inl f rule input k, gparse g [] f rule input k with
+    | GOk m1 s1 p1, GOk m2 s2 p2 =>
+        m1 = m2 /\ p1 = p2 /\ i_pos s1 = i_pos s2 /\ i_rest s1 = i_rest s2 /\ i_user s1 = i_user s2 /\
+        i_tags s1 = i_tags s2 /\ i_depth s1 = i_depth s2 /\ i_dcps s1 = i_dcps s2 /\ i_neg s1 = i_neg s2 /\
+        i_sup s1 = i_sup s2 /\ t_pos (i_trk s1) = t_pos (i_trk s2) /\ i_rules s1 = [] /\ i_saved s1 = []
+    | GCrash, GCrash => True | GUndef, GUndef => True | GFuel, GFuel => True | _, _ => False
+    end.
+Proof. exact gparse_inl. Qed.
+
+(* the observation compared by the check is a function of (grammar, rule, input, position) *)
 Definition obs (r : res) : option (list pair) * Z :=
   match r with
   | Ok _ tree => (Some tree, 0%Z)
@@ -27,10 +113,33 @@ Proof.
   congruence.
 Qed.
 
-(* what both modes return is a well-formed tree or a position inside the input *)
-Theorem C01_observation_wellformed : forall g input k f rule, k <= length input ->
-  res_ok g input k (st0 input k) (parse g f rule input k).
-Proof. intros. apply parse_sound. assumption. Qed.
+(* non-vacuity: a grammar with a silent rule, a built-in emitted in place, trivia and a stack
+   operation satisfies the side conditions and both machines accept "a 1" with the same tree *)
+Definition g_ex : grammar :=
+  [{| r_name := 10; r_silent := false; r_kind := KNormal;
+      r_body := ESeq [EPush (EStr [97%N]); ERef 11 None; EPeek] |};
+   {| r_name := 11; r_silent := true; r_kind := KNormal; r_body := ERef 12 None |};
+   {| r_name := 12; r_silent := true; r_kind := KNormal; r_body := ERange 48 57 |};
+   {| r_name := 0; r_silent := true; r_kind := KNormal; r_body := EStr [32%N] |}].
+Example g_ex_conditions : one_modifier g_ex /\ inl_ok g_ex [12%N].
+Proof.
+  split.
+  - intros n r L _. unfold g_ex in L. cbn in L.
+    repeat match type of L with (if ?b then _ else _) = _ => destruct b end;
+      try discriminate; inversion L; subst; left; reflexivity.
+  - intros n r L I. unfold inlined in I. cbn in I. rewrite Bool.orb_false_r in I.
+    apply N.eqb_eq in I. subst n. cbn in L. inversion L; subst. repeat split; reflexivity.
+Qed.
+Example g_ex_runs :
+  (match iparse g_ex 40 10 [97; 32; 49; 32; 97]%N 0 with IOk true _ ps => Some ps | _ => None end)
+  = Some [Pair 10 0 5 [] None] /\
+  (match gparse g_ex [12%N] 40 10 [97; 32; 49; 32; 97]%N 0 with GOk true _ ps => Some ps | _ => None end)
+  = Some [Pair 10 0 5 [] None].
+Proof. split; vm_compute; reflexivity. Qed.
 
+Print Assumptions C01_generated_equals_interpreter.
+Print Assumptions C01_both_terminate.
+Print Assumptions C01_wellformed_grammars_total.
+Print Assumptions C01_generated_refines_semantics.
+Print Assumptions C01_inlining_changes_names_only.
 Print Assumptions C01_observation_is_a_function.
-Print Assumptions C01_observation_wellformed.
